@@ -12,7 +12,7 @@
    D3 (dot of a COO matrix with a dense operand without columns never returned) was repaired in
    /repo (commit d27a95d); the termination theorems below are therefore unconditional and go through
    the loop test regenerated from the source (sv_dcn_outer_test / sv_dcs_outer_test). *)
-From Coq Require Import ZArith List Bool.
+From Coq Require Import ZArith List Bool QArith.
 From Verif Require Import Py PyExt PyValid G_slicing G_validators S_validators NpValid Validators ValidatorsP.
 From Verif Require Import Kernels KernelsP.
 Import ListNotations.
@@ -207,13 +207,29 @@ Theorem match_arrays_safe :
 Proof. exact match_arrays_safe_proof. Qed.
 Print Assumptions match_arrays_safe.
 
+(* _compute_mask's narrowing loop with the cost test EXTRACTED from the source (sv_cm_n_current_slices,
+   sv_cm_break: `n_current_slices * log(n_current_slices / max(n_pairs, 1)) > n_matches + n_pairs`), read over
+   exact rationals with any logarithm lg such that lg x >= 1 for x >= 3 (true of ln).  Every narrowing step
+   the loop executes (log entry (len(range), n_pairs, n_matches)) performs len(range) * n_pairs pairs of binary
+   searches, and that number is bounded by n_matches + 3 * max(n_pairs, 1): independent of the extent of the
+   axis and of the length of the requested slice. *)
 Theorem compute_mask_narrow_safe :
-  forall (guess_break : nat -> bool) (nnz : Z) (coords ranges : list (list Z)) (F : nat),
+  forall (lg : Q -> Q) (nnz : Z) (coords ranges : list (list Z)) (F : nat),
+    (forall x : Q, (3 <= x -> 1 <= lg x)%Q) ->
     0 <= nnz -> Forall (fun c => zlen c = nnz) coords ->
     Z.of_nat F = nnz + zlen coords + 1 ->
-    exists r, compute_mask_narrow F guess_break nnz coords ranges = Done r.
+    exists i pairs log, compute_mask_narrow F lg nnz coords ranges = Done (i, pairs, log) /\
+      Forall (fun t => let '(r, P, M0) := t in r * P + 2 <= Z.max 0 M0 + 3 * Z.max P 1) log.
 Proof. exact compute_mask_narrow_safe_proof. Qed.
 Print Assumptions compute_mask_narrow_safe.
+
+Theorem compute_mask_work_bound :
+  forall (lg : Q -> Q), (forall x : Q, (3 <= x -> 1 <= lg x)%Q) ->
+  forall rlen n_pairs n_matches : Z,
+    0 <= rlen -> 0 <= n_pairs -> cm_break lg rlen n_pairs n_matches = false ->
+    rlen * n_pairs + 2 <= Z.max 0 n_matches + 3 * Z.max n_pairs 1.
+Proof. exact compute_mask_work_bound_proof. Qed.
+Print Assumptions compute_mask_work_bound.
 
 Theorem sort_coo_scan_in_bounds :
   forall group_coords : list Z,
